@@ -6,16 +6,19 @@ from . import params_common as pc
 
 def run(ctx):
     thorough = ctx.tier == "thorough"
-    runs = [([[1, 2, 3, 4]], [2 if not thorough else 3], "combine/1param")]
-    runs.append(([[1, 2, 3], [1, 2]], [2, 2], "combine/2params"))
+    runs = [("combine", [[1, 2, 3, 4]], [2 if not thorough else 3], "combine/1param")]
+    runs.append(("combine", [[1, 2, 3], [1, 2]], [2, 2], "combine/2params"))
+    # both association orders of a three-way combine (operands that hold observation-less results are merged again)
+    runs.append(("combine3", [[1, 2, 3]], [2], "combine3/1param"))
     if thorough:
-        runs.append(([[1, 2, 3, 4], [1, 2, 3]], [3, 2], "combine/2params-large"))
-    for universe, maxlen, label in runs:
-        r = pc.run_tlc(ctx, "combine", universe, maxlen, label)
+        runs.append(("combine", [[1, 2, 3, 4], [1, 2, 3]], [3, 2], "combine/2params-large"))
+        runs.append(("combine3", [[1, 2], [1, 2]], [2, 2], "combine3/2params"))
+    for mode, universe, maxlen, label in runs:
+        r = pc.run_tlc(ctx, mode, universe, maxlen, label)
         cases = r.emitted
         res = pool_map(pc.run_case, cases, chunksize=max(1, len(cases) // 64))
         for c, d in zip(cases, res):
-            ctx.ok(("combine", str(c["ga"]), str(c["gb"])))
+            ctx.ok((c["kind"], str(c["ga"]), str(c["gb"]), str(c.get("gc")), c.get("nobs"), c.get("acc")))
             if d:
                 ctx.violation(f"{label}: {d}", {"kind": "combine", "case": c})
         if cases:
